@@ -4,6 +4,7 @@ import (
 	"fmt"
 	"go/ast"
 	"go/parser"
+	"go/token"
 	"go/types"
 	"strings"
 
@@ -151,6 +152,23 @@ func (ex *Exec) callFn(fr *frame, fn *ssa.Function, args []Val, bind []Val, st *
 	if fnPkgPath(fn) == ex.w.module+"/log" {
 		ex.used["A-LOG: log calls have no effect on tracked state"] = true
 		return ex.freshResults(ctx, false)
+	}
+	if c := ex.w.contracts[fn]; c != nil && c.Pure && ex.pure > 0 && len(c.Ensures) > 0 {
+		// a pure function with a defining postcondition "ret0 == E": specifications use the definition
+		if be, ok := c.Ensures[0].Expr.(*ast.BinaryExpr); ok && be.Op == token.EQL {
+			if id, ok := be.X.(*ast.Ident); ok && id.Name == "ret0" {
+				env := map[string]Val{}
+				for i, p := range fn.Params {
+					env[p.Name()] = args[i]
+				}
+				n := 0
+				ce := &cenv{ex: ex, pkg: c.Pkg, vars: env, st: st, old: st, nq: &n}
+				v := ce.eval(be.Y)
+				v = ce.coerce(v, res.At(0).Type())
+				v.T = res.At(0).Type()
+				return v
+			}
+		}
 	}
 	if c := ex.w.contracts[fn]; c != nil && !c.Inline && (len(c.Requires)+len(c.Ensures) > 0 || c.HasMod || c.Trusted) && ex.pure == 0 {
 		if !(c.Trusted && len(fn.Blocks) > 0 && ex.inRepo(fn) && len(c.Ensures) == 0) {
@@ -476,6 +494,23 @@ func (ex *Exec) resolveModifies(c *Contract, item string, env map[string]Val, st
 	if strings.HasSuffix(item, ".*") {
 		star = true
 		item = strings.TrimSuffix(item, ".*")
+	}
+	if strings.HasPrefix(item, "elemtype(") {
+		// every element of every backing array of this element type (type level)
+		inner := item[len("elemtype(") : len(item)-1]
+		e, err := parser.ParseExpr(inner)
+		if err != nil {
+			panic(unsupported("modifies: " + item))
+		}
+		t := ce.resolveType(e)
+		if t == nil {
+			panic(unsupported("modifies: unknown type in " + item))
+		}
+		var out []modLoc
+		for _, l := range leaves(t) {
+			out = append(out, modLoc{key: "E|" + typeKey(t) + "|" + l.Name, sort: heapKeySort("E", l.Sort, "")})
+		}
+		return out
 	}
 	if strings.HasPrefix(item, "elems(") || strings.HasPrefix(item, "map(") {
 		isMap := strings.HasPrefix(item, "map(")
